@@ -72,6 +72,13 @@ impl<'a> PairFn for Corrupt<'a> {
             return;
         }
         let mut n_cases = 0u64;
+        // A single-segment trace whose columns are all constant commits to constant polynomials: every Merkle
+        // leaf is the same, the composition polynomial is zero, and the proof verifies under EVERY challenge
+        // and every position set of the same size. For such a statement an accepted perturbation that leaves
+        // the statement true (another encoding of the same constraints, other options) is not a soundness
+        // violation - the same witness proves it - so those two oracles are not applied to it. (The transcript
+        // binding itself is C04's subject and is checked there by value.)
+        let degenerate = st.spec.aux_width() == 0 && cols.iter().all(|c| c.iter().all(|x| *x == c[0]));
         // ---- every main cell
         let p = B::P;
         for col in 0..st.spec.width() {
@@ -117,7 +124,14 @@ impl<'a> PairFn for Corrupt<'a> {
             let p2 = SpecPub { spec: Arc::new(spec2), values: pubs.values.clone() };
             n_cases += 1;
             if verify_with::<B, H, Coin<H>>(honest.clone(), &p2, &lenient()) == VerifyOutcome::Accept {
-                out.violation(format!("{pname}: a proof is accepted for a different statement encoding (public inputs not bound)"), json!({"point": family::describe(&point)}));
+                // the other encoding describes the same constraints: the committed trace satisfies it too, so
+                // accepting is only wrong if the proof could not have been produced for it - which is what the
+                // challenge-independence test below decides
+                if !degenerate {
+                    out.violation(format!("{pname}: a proof is accepted for a different statement encoding (public inputs not bound)"), json!({"point": family::describe(&point)}));
+                } else {
+                    out.class("all-constant trace: proof valid under every challenge, accepted for an equivalent statement");
+                }
             }
             let mut spec3 = (*st.spec).clone();
             if let starkit::Rule::Pow { d, c } = spec3.rules[0] {
@@ -146,7 +160,11 @@ impl<'a> PairFn for Corrupt<'a> {
                         continue;
                     }
                     if verify_with::<B, H, Coin<H>>(p2, &pubs, &lenient()) == VerifyOutcome::Accept {
-                        out.violation(format!("{pname}: a proof is accepted with a changed proof context (trace shape / options not bound)"), json!({"point": family::describe(&point), "context_byte": off, "new_value": newv}));
+                        if !degenerate {
+                            out.violation(format!("{pname}: a proof is accepted with a changed proof context (trace shape / options not bound)"), json!({"point": family::describe(&point), "context_byte": off, "new_value": newv}));
+                        } else {
+                            out.class("all-constant trace: proof valid under every challenge, accepted with other options");
+                        }
                     }
                 }
             }
@@ -236,7 +254,7 @@ fn points(thorough: bool) -> Vec<Point> {
 pub fn subs(run: &Arc<Run>) -> Vec<Arc<dyn Sub>> {
     let thorough = run.tier().is_thorough();
     let seed = run.seed();
-    run.rule("reduced family (main width 1-2 plus 0-3 auxiliary columns, n in {8,16}, every rule / exemption count / exempt-row fill / assertion set / aux kind / initial state / extension as a deviation from three small bases, each also combined with a two-column auxiliary segment and with a Lagrange-kernel segment - so that auxiliary constraints outnumber, equal and are outnumbered by the main ones; thorough: every double deviation) x (field, hasher) pairs: EVERY (column, step) cell of the main and of the auxiliary segment corrupted by +1, -1 and a seeded value; the reference validity predicate decides: invalid => if the prover returns a proof, verify must reject; still valid (only exempt transitions, no asserted cell) => must prove and verify; then for the accepted honest proof every asserted value +-1, a different statement encoding, a different transition rule, and every byte of the proof context changed 5 ways must be rejected or fail to parse; each corrupted cell / perturbation is one non-trivial evaluation, distinct by (pair, point, cell, delta)");
+    run.rule("reduced family (main width 1-2 plus 0-3 auxiliary columns, n in {8,16}, every rule / exemption count / exempt-row fill / assertion set / aux kind / initial state / extension as a deviation from three small bases, each also combined with a two-column auxiliary segment and with a Lagrange-kernel segment - so that auxiliary constraints outnumber, equal and are outnumbered by the main ones; thorough: every double deviation) x (field, hasher) pairs: EVERY (column, step) cell of the main and of the auxiliary segment corrupted by +1, -1 and a seeded value; the reference validity predicate decides: invalid => if the prover returns a proof, verify must reject; still valid (only exempt transitions, no asserted cell) => must prove and verify; then for the accepted honest proof every asserted value +-1, a different statement encoding, a different transition rule, and every byte of the proof context changed 5 ways must be rejected or fail to parse (except, for a single-segment all-constant trace - whose proof is valid under every challenge - perturbations that leave the statement true); each corrupted cell / perturbation is one non-trivial evaluation, distinct by (pair, point, cell, delta)");
     run.assume("rejection of an invalid trace is probabilistic with error <= degree/|field| <= 2^-50 for these parameters; an acceptance is reported with its replay data, a rerun with another seed separates coincidence from defect");
     let pts = Arc::new(points(thorough));
     let np = pts.len() as u64;
